@@ -1182,6 +1182,10 @@ class AV:
                     for m_ in _mutated_names(tgt[1].node.body):
                         if m_ in fr.env and m_ not in assigned:
                             assigned.append(m_)
+            if isinstance(n_, ast.Call):
+                for m_ in self._callee_param_mutations(n_, fr):
+                    if m_ in fr.env and m_ not in assigned:
+                        assigned.append(m_)
         pre = {k: fr.env.get(k) for k in assigned}
         for k in assigned:
             if k in fr.env:
@@ -1908,8 +1912,18 @@ class AV:
                             callee = m_
         if callee is not None and fr.depth < MAX_DEPTH and (dotted(fn) or "") not in self.opaque and self.inline(callee):
             bound_self = isinstance(fn, ast.Attribute) and not _is_static(callee) and not (isinstance(fn.value, ast.Name) and fn.value.id == callee.qualname.split(".")[0])
+            self._mutated_params = {}
             v = self._apply_func(callee, args, kwargs, fr, self._ev(fn.value, fr) if bound_self else None)
             if v is not None:
+                mp, self._mutated_params = self._mutated_params, {}
+                if mp:
+                    order = self._param_order
+                    for i, a_ in enumerate(n.args):
+                        if isinstance(a_, ast.Name) and i < len(order) and order[i] in mp and a_.id in fr.env:
+                            fr.env[a_.id] = mp[order[i]]
+                    for k_ in n.keywords:
+                        if k_.arg in mp and isinstance(k_.value, ast.Name) and k_.value.id in fr.env:
+                            fr.env[k_.value.id] = mp[k_.arg]
                 return v
         if callee is None and isinstance(fn, ast.Attribute) and isinstance(fn.value, ast.Name) and fn.value.id == "self" and fr.func is not None and "." in fr.func.qualname and fr.depth < MAX_DEPTH:
             held = self.instance_attr(fr.func.qualname.split(".")[0], fn.attr)
@@ -2240,8 +2254,40 @@ class AV:
             if not (r is _FALL or r is None or r == NONE):
                 return unk("generator with an exit that is not understood")
             return sub.env.get("<yield>", unk("generator"))
+        env0 = dict(env)
         r = self._body(callee.node.body, sub)
+        # parameters mutated in place (never re-bound): the caller's object has changed too
+        rebound = {x.id for st_ in callee.node.body for x in ast.walk(st_) if isinstance(x, ast.Name) and isinstance(x.ctx, (ast.Store, ast.Del))}
+        muts = set(_mutated_names(callee.node.body)) - rebound
+        self._mutated_params = {p: sub.env[p] for p in muts if p in env0 and p in sub.env and sub.env[p] != env0[p]}
+        self._param_order = ([x.arg for x in a.posonlyargs + a.args][1:] if self_val is not None else [x.arg for x in a.posonlyargs + a.args])
         return self._finish(r, sub)
+
+    def _callee_param_mutations(self, n: ast.Call, fr: Frame) -> list[str]:
+        """caller names handed to an expandable helper that mutates the corresponding parameter in place"""
+        try:
+            callee = self._resolve(n.func, fr)
+        except Exception:
+            callee = None
+        if callee is None or not self.inline(callee):
+            return []
+        body = callee.node.body
+        rebound = {x.id for st_ in body for x in ast.walk(st_) if isinstance(x, ast.Name) and isinstance(x.ctx, (ast.Store, ast.Del))}
+        muts = set(_mutated_names(body)) - rebound
+        if not muts:
+            return []
+        a = callee.node.args
+        params = [x.arg for x in a.posonlyargs + a.args]
+        if isinstance(n.func, ast.Attribute) and params and params[0] in ("self", "cls") and not _is_static(callee):
+            params = params[1:]
+        out = []
+        for i, arg in enumerate(n.args):
+            if isinstance(arg, ast.Name) and i < len(params) and params[i] in muts:
+                out.append(arg.id)
+        for k_ in n.keywords:
+            if k_.arg in muts and isinstance(k_.value, ast.Name):
+                out.append(k_.value.id)
+        return out
 
     def _apply_closure(self, clo: "_Closure", args, kwargs, fr: Frame):
         node = clo.node
